@@ -1190,7 +1190,11 @@ class Store:
             for child, inner_value in value.items():
                 if child not in self.inner:
                     if self.subschema:
-                        self.inner[child] = Store(self.subschema, self)
+                        # create the child the way _add does: the
+                        # sub-schema is laid out according to the
+                        # store's sub-topology
+                        self._establish_path((child,), {})
+                        self._apply_subschema_path((child,))
                     else:
                         pass
                         # TODO: continue to ignore extra keys?
